@@ -41,6 +41,9 @@ def run_variant(pid, spec, tmpdir):
             ctx.unrecognised('analysis', str(e))
         rc = core.finish(ctx, '', write=False)
         keys = sorted(set(r['key'] for r in ctx.new_violations))
+        if os.environ.get('SELFTEST_VERBOSE'):
+            for r in ctx.new_violations:
+                print('   ', r['key'], '|', r['where'], '|', r['detail'][:400])
         return rc, keys, ctx.unrec
     finally:
         ir.set_overlay({})
